@@ -4195,7 +4195,9 @@ def qr(a, mode='reduced', inner_labels=[None, None], cutoff=None, pos_diag_R=Fal
                 continue
         if pos_diag_R:
             r_diag = np.diag(r_block)
-            phase = r_diag / np.abs(r_diag)
+            abs_diag = np.abs(r_diag)
+            # rank-deficient block: r_ii == 0, keep the (arbitrary) phase 1 instead of 0/0 = NaN
+            phase = np.where(abs_diag == 0, 1.0, r_diag / np.where(abs_diag == 0, 1.0, abs_diag))
             K = len(r_diag)
             if K < q_block.shape[1]:
                 q_block[:, :K] *= phase[np.newaxis, :]
